@@ -89,7 +89,21 @@ fn outcome_of(o: u8) -> UvOutcome {
         0..=3 => UvOutcome::Ok { presence: o & 2 != 0, verification: o & 1 != 0 },
         4 => UvOutcome::Err(0x27),
         5 => UvOutcome::Err(0x2F),
-        _ => UvOutcome::Err(0x30),
+        6 => UvOutcome::Err(0x30),
+        // verification locked out (blocked / invalid / denied / timed out): only the question that
+        // asks for verification fails
+        7 => UvOutcome::Lockout(0x3C),
+        8 => UvOutcome::Lockout(0x3F),
+        9 => UvOutcome::Lockout(0x27),
+        _ => UvOutcome::Lockout(0x2F),
+    }
+}
+/// what the scripted user step answers to the question (up, uv) under this outcome
+fn answer_of(o: u8, asked_uv: bool) -> UvOutcome {
+    match outcome_of(o) {
+        UvOutcome::Lockout(b) if asked_uv => UvOutcome::Err(b),
+        UvOutcome::Lockout(_) => UvOutcome::Ok { presence: true, verification: false },
+        x => x,
     }
 }
 
@@ -128,7 +142,7 @@ pub fn cases() -> Vec<Case> {
         }
         for uvreq in 0..4u8 {
             for cap in 0..3u8 {
-                for outcome in 0..7u8 {
+                for outcome in 0..11u8 {
                     v.push(Case { op, rk: false, up: true, uv: false, cap, presence_cap: true, outcome, pin: false, arc_mutex: false, level: 1, uvreq, ext: 0, wire: 0, flip: false, protocol_only: false });
                 }
             }
@@ -341,9 +355,9 @@ fn observe_client(c: &Case, store: RefStore, list: Option<Vec<Vec<u8>>>, log: Lo
 
 /// The reference consent rule (what must have been reported for the operation to be allowed).
 fn consent_ok(c: &Case, asked_up: bool, asked_uv: bool) -> bool {
-    let (p, v) = match outcome_of(c.outcome) {
+    let (p, v) = match answer_of(c.outcome, asked_uv) {
         UvOutcome::Ok { presence, verification } => (presence, verification),
-        UvOutcome::Err(_) => return false,
+        _ => return false,
     };
     if c.op == Op::Make && !asked_up {
         return false;
@@ -374,7 +388,7 @@ pub fn eval(c: &Case) -> (Vec<Finding>, Vec<String>) {
         });
         let (asked_up, asked_uv) = if c.level == 0 { (c.up, c.uv) } else { asked.unwrap_or((true, c.uvreq != 3)) };
         let ok = consent_ok(c, asked_up, asked_uv);
-        let reported = match outcome_of(c.outcome) {
+        let reported = match answer_of(c.outcome, asked_uv) {
             UvOutcome::Ok { presence, verification } => Some((presence, verification)),
             _ => None,
         };
@@ -502,7 +516,8 @@ impl passkey_authenticator::UserValidationMethod for SeqUv {
         let o = self.outcomes.lock().unwrap().remove(0);
         let (r, logged) = match o {
             UvOutcome::Ok { presence: p, verification: v } => (Ok(passkey_authenticator::UserCheck { presence: p, verification: v }), Ok((p, v))),
-            UvOutcome::Err(b) => (Err(passkey_types::ctap2::Ctap2Error::try_from(b).unwrap_or(passkey_types::ctap2::Ctap2Error::OperationDenied)), Err(b)),
+            UvOutcome::Lockout(_) if !verification => (Ok(passkey_authenticator::UserCheck { presence: true, verification: false }), Ok((true, false))),
+            UvOutcome::Err(b) | UvOutcome::Lockout(b) => (Err(passkey_types::ctap2::Ctap2Error::try_from(b).unwrap_or(passkey_types::ctap2::Ctap2Error::OperationDenied)), Err(b)),
         };
         self.log.push(Event::CheckUser { cred: credential.map(|c| c.credential_id.to_vec()), up: presence, uv: verification, result: logged });
         r
